@@ -1242,6 +1242,10 @@ func (s *State) globalVal(o *types.Var) Val {
 		v := Val{T: o.Type(), Terms: []string{strLit(c)}, Const: &cc}
 		return v
 	}
+	if c, ok := s.eng.intConsts[o.Pkg().Path()+"."+o.Name()]; ok && isIntT(o.Type()) {
+		s.eng.assumptionsUsed["package-level int variable "+o.Pkg().Name()+"."+o.Name()+" keeps its initial value (no function of the repository assigns it; a user of an exported variable could)"] = true
+		return Val{T: o.Type(), Terms: []string{intLit(c)}}
+	}
 	// sentinel errors and other globals: a fixed, allocated value
 	name := sym("g:" + o.Pkg().Name() + "." + o.Name())
 	sh := shapeOf(o.Type())
